@@ -205,6 +205,8 @@ def rule_LEAK(ctx, R, rule="R3", roles=("ACQ-SCOPED",), all_fns=False, floor=30)
             continue
         if any(p.kind == "cut" for p in paths) and f.get("unsafe"):
             continue   # algorithm bodies with loops: decided by the held-set engine, not here
+        if all_fns and not f.get("reachable"):
+            continue   # crate-private helpers are judged inlined into their reachable callers
         if (f.get("trait_item") or "").startswith("lockable::RawLock::") or (f["path"] in ctx.A.role):
             continue   # HL ops / algorithm helpers: returning with the lock held is their contract (M2, E2, E5 decide them)
         leaks = held_exit_obligation(ctx, R, f, paths)
